@@ -85,6 +85,19 @@ Theorem C13_reader_bytes : forall l, Forall (fun b => b < 256) l ->
 Proof. exact reader_bytes. Qed.
 Print Assumptions C13_reader_bytes.
 
+(* the same at ANY bit alignment (RGood s: 0..7 bits pending in the accumulator, any position): ReadBytes(k) returns the
+   next k bytes of the unescaped bit stream, whatever was read before it - k is unbounded *)
+Theorem C13_reader_bytes_unaligned : forall k s l rest,
+  RGood s -> length l = k -> Forall lt256 l -> rbits s = bytes_to_bits l ++ rest ->
+  exists s', read_bytes k s = (l, s') /\ rbits s' = rest /\ RGood s' /\ rdata s' = rdata s.
+Proof. exact read_bytes_spec. Qed.
+Print Assumptions C13_reader_bytes_unaligned.
+
+Example ex_reader_bytes_unaligned :
+  let s := snd (read (rinit [255; 129; 255; 128; 255; 255; 254; 255; 129; 255; 170]) 3) in
+  rn s = 5 /\ fst (read_bytes 9 s) = [252; 15; 252; 7; 255; 255; 247; 252; 15].
+Proof. vm_compute. split; reflexivity. Qed.
+
 Theorem C13_read_ue : forall s v rest,
   RGood s -> v < 2 ^ 32 -> rbits s = ue_code' v ++ rest ->
   exists s', read_ue s = (v, s') /\ rbits s' = rest /\ RGood s' /\ rdata s' = rdata s.
